@@ -63,29 +63,100 @@ def norm_matcher(u, fn):
     return txt
 
 
+PROBE_PATTERNS = None
+
+
+def _probe_patterns():
+    global PROBE_PATTERNS
+    if PROBE_PATTERNS is None:
+        import itertools
+        out = [""]
+        for n in range(1, 6):
+            out += ["".join(t) for t in itertools.product(":if", repeat=n)]
+        PROBE_PATTERNS = out
+    return PROBE_PATTERNS
+
+
+PROBE_ARGS = ["", "i", "f", "ii", "if", "fi", "ff", "iif"]
+_PB, _AB, _MB = 4096, 8192, 12288
+
+
+def matcher_table(unit, fn, takes_message):
+    """{(pattern, type string): verdict} of one copy of the type-tag matcher, evaluated on the probe set.  Strings live in a
+    flat memory (pattern / type string / opaque message); rtosc_argument_string(message) yields the type string; calls of
+    functions of the unit (the copy itself when it retries, or a sibling it delegates to) are evaluated in turn."""
+    table = {}
+    for pat in _probe_patterns():
+        for args0 in PROBE_ARGS:
+          # the copies scan on past the type string's terminator when an alternative is longer than it: what lies there
+          # (padding, then argument data) is tried both as zeros and as bytes that look like a type tag
+          for junk in (0, ord("i")):
+            args = args0
+
+            def deref(addr, n, pat=pat, args=args, junk=junk):
+                if _PB <= addr < _AB:
+                    k = addr - _PB
+                    if k > len(pat):
+                        raise FD.Unknown("read past the end of the pattern", n)
+                    return ord(pat[k]) if k < len(pat) else 0
+                if _AB <= addr < _MB:
+                    k = addr - _AB
+                    if k > len(args) + 8:
+                        raise FD.Unknown("read far past the end of the type string", n)
+                    return ord(args[k]) if k < len(args) else (0 if k == len(args) else junk)
+                raise FD.Unknown("read of the opaque message", n)
+            depth = [0]
+
+            def call(name, vals, n):
+                if name == "rtosc_argument_string":
+                    if vals != [_MB]:
+                        raise FD.Unknown("rtosc_argument_string of something else than the message", n)
+                    return _AB
+                fns = [f for f in unit.functions.get(name, []) if unit.body(f) is not None]
+                if not fns:
+                    fns = [f for q, fl in unit.functions.items() if q.endswith("::" + str(name)) for f in fl if unit.body(f) is not None]
+                if len(fns) != 1:
+                    raise FD.Unknown("call to %s" % name, n)
+                depth[0] += 1
+                if depth[0] > 12:
+                    raise FD.Unknown("retry recursion too deep", n)
+                return ev.call_function(unit, fns[0], vals)
+
+            def hook(n, evl):
+                if n.get("kind") == "CXXMemberCallExpr":
+                    callee = A.strip_casts(A.kids(n)[0])
+                    return call(callee.get("name"), [evl.ev(a) for a in A.kids(n)[1:]], n)
+                return NotImplemented
+            ev = FD.Eval(deref=deref, call=call, node_hook=hook, max_steps=4000)
+            r = ev.call_function(unit, fn, [_PB, _MB if takes_message else _AB])
+            table[(pat, args, junk)] = 1 if r else 0
+    return table
+
+
 def matcher_clone_obligations(ctx, rule):
-    """The copies of the type-tag matcher that exist are one function up to renaming, and a copy that takes the type
-    string as a parameter is only ever handed rtosc_argument_string(<message>)."""
+    """The copies of the type-tag matcher that exist decide alike: each is evaluated (finite-domain, on the AST) over every
+    pattern of up to five characters from {':','i','f'} against eight type strings and the verdict tables must be equal -
+    however a copy is written, including a copy that delegates to a sibling.  A copy that takes the type string as a
+    parameter is only ever handed rtosc_argument_string(<message>)."""
     u = ctx.ast(UNIT)
     ud = ctx.ast("dispatch.c")
     c1 = ud.function("rtosc_match_args")
-
-    def leaf(t):
-        t = re.sub(r'rtosc_argument_string\(v1\)', 'ARGS', t)
-        t = re.sub(r'= v1;', '= ARGS;', t)
-        t = re.sub(r'\b_Bool\b', 'bool', t)
-        t = re.sub(r'\btrue\b', '1', t)
-        t = re.sub(r'\bfalse\b', '0', t)
-        return t
-    n1 = leaf(norm_matcher(ud, c1))
-    others = [("ports.cpp:arg_matcher", u.function("arg_matcher", required=False)),
-              ("ports.cpp:Port_Matcher::rtosc_match_args", u.function("Port_Matcher::rtosc_match_args", required=False))]
-    present = [(n, f) for n, f in others if f is not None]
+    try:
+        t1 = matcher_table(ud, c1, True)
+    except FD.Unknown as e:
+        raise AnalysisBroken("%s: dispatch.c:rtosc_match_args not evaluable: %s" % (rule, e))
+    others = [("ports.cpp:arg_matcher", u.function("arg_matcher", required=False), False),
+              ("ports.cpp:Port_Matcher::rtosc_match_args", u.function("Port_Matcher::rtosc_match_args", required=False), True)]
+    present = [(n, f, tm) for n, f, tm in others if f is not None]
     ctx.require(present, "no copy of the type-tag matcher left in ports.cpp")
-    for name, fn in present:
-        n2 = leaf(norm_matcher(u, fn))
-        ctx.ob(rule, "dispatch.c:rtosc_match_args == %s" % name, n1 == n2, site=A.where(fn), detail={"dispatch.c": n1[:400], name: n2[:400]},
-               what="the type-tag matcher %s differs from dispatch.c's rtosc_match_args: which type strings a port admits depends on the lookup strategy" % name)
+    for name, fn, tm in present:
+        try:
+            t2 = matcher_table(u, fn, tm)
+        except FD.Unknown as e:
+            raise AnalysisBroken("%s: %s not evaluable: %s" % (rule, name, e))
+        diff = [{"pattern": k[0], "type_string": k[1], "bytes_after_terminator": k[2], "dispatch.c": t1[k], name: t2[k]} for k in sorted(t1) if t1[k] != t2[k]]
+        ctx.ob(rule, "dispatch.c:rtosc_match_args == %s" % name, not diff, site=A.where(fn), detail={"probes": len(t1), "admitted": sum(t1.values()), "differences": diff[:6]},
+               what="the type-tag matcher %s decides differently from dispatch.c's rtosc_match_args (e.g. %s): which type strings a port admits depends on the lookup strategy" % (name, diff[:2]))
     # call sites of the copy that takes the type string itself
     am = u.function("arg_matcher", required=False)
     if am is not None:
